@@ -145,7 +145,7 @@ func (f *FuncVC) applyContract(st *State, x *ssa.Call, con *Contract, args []*Va
 	}
 	for _, c := range con.Ensures {
 		f.sc.add("; callee ensures " + c.Text)
-		f.assume(st, post.evalBool(c.Expr))
+		f.assume(st, post.assuming().evalBool(c.Expr))
 	}
 	if con.Assumed && f.pure == 0 {
 		// vacuity guard: an assumed contract must not make the path infeasible
@@ -672,7 +672,7 @@ func (f *FuncVC) fieldFuncCall(st *State, x *ssa.Call, args []*Val) (*Val, bool)
 		ev.env[con.Results[0]] = res
 	}
 	for _, cl := range con.Ensures {
-		f.assume(st, ev.evalBool(cl.Expr))
+		f.assume(st, ev.assuming().evalBool(cl.Expr))
 	}
 	return res, true
 }
